@@ -126,7 +126,7 @@ def render_real(cls, arg, env, **cfg):
 
 
 def run(ctx):
-    monitors.install(ctx)
+    monitors.install(ctx, tokalg=False)
     import chameleon.tokenize as T
     import chameleon.program as P
     orig_iter_text = T.iter_text
